@@ -9,7 +9,7 @@ func init() {
 			"an interval is flagged when the end record's error time is at/after the start time or the start record's error time equals its time; spot-price errors, zero or clamped prices stamp the error time with the block time; the record at-or-before a time is found by reverse iteration ending at that time; pruning never deletes the newest record before the keep time; new records update the most-recent and historical indexes together.",
 		NotCovered:  []string{"TWAP = time-weighted mean as a value (integral over price histories)", "bounds by min/max price", "reciprocity of the geometric directions", "precision"},
 		Assumptions: []string{"osmomath.Exp2 / log2 accuracy (C13)"},
-		MinObl:      37,
+		MinObl:      41,
 		Run:         runC10,
 	})
 }
@@ -41,6 +41,10 @@ func runC10(c *rules.Ctx) {
 	// error flagging
 	const CT = T + "computeTwap"
 	c.StoreVarWhenAny(CT)
+	c.Returns(CT, 1, "phi(nil, errors.New(_))", "every result of computeTwap — the zero-length interval included — carries the spot-price error flag computed from the two records", "")
+	c.PathCase(CT, "time.Time.After(endRecord.LastErrorTime,startRecord.Time)", 1, "errors.New(_)", "an error after the start record flags the result")
+	c.PathCase(CT, "time.Time.Equal(endRecord.LastErrorTime,startRecord.Time)", 1, "errors.New(_)", "an error exactly at the start record flags the result")
+	c.PathCase(CT, "time.Time.Equal(startRecord.LastErrorTime,startRecord.Time)", 1, "errors.New(_)", "a start record that is itself errored flags the result")
 	// spot prices
 	const SP = T + "getSpotPrices"
 	c.CallArg(SP, "twaptypes.PoolManagerInterface.RouteCalculateSpotPrice", 1, "ctx", "spot prices are read from the pool manager")
